@@ -1,7 +1,7 @@
 """Checker self-test (thorough tier): each seeded single-edit variant under /verif/selftest/<id>/
 and /verif/seeded/*/ (for this property) is applied to a scratch copy of the current /repo sources
 (outside /repo and /verif), re-extracted and re-checked with the same rules. Expected outcome per
-patch is recorded in its meta (expect: caught | missed). The scratch copy is removed immediately."""
+patch is recorded in its meta (expect: caught | missed); behaviour-preserving changes under /verif/benign/ must leave the check silent (expect: silent). The scratch copy is removed immediately."""
 import glob
 import importlib
 import json
@@ -30,6 +30,14 @@ def patches_for(pid):
         if pid in checks or meta.get('property') == pid:
             exp = checks.get(pid, {}).get('expect', 'missed')
             out.append(('seeded/' + os.path.basename(d), os.path.join(d, 'patch.diff'), exp, checks.get(pid, {}).get('rule'), meta.get('summary', '')))
+    # behaviour-preserving changes: the check must stay silent (a report would be a false alarm)
+    for d in sorted(glob.glob(os.path.join(facts.VERIF, 'benign', '*'))):
+        mp = os.path.join(d, 'meta.json')
+        if not os.path.exists(mp):
+            continue
+        meta = json.load(open(mp))
+        if pid in meta.get('checks', []) or 'all' in meta.get('checks', []):
+            out.append(('benign/' + os.path.basename(d), os.path.join(d, 'patch.diff'), 'silent', None, meta.get('summary', '')))
     return out
 
 
@@ -80,3 +88,5 @@ def summarise(ctx, results):
               (' -> ' + r['reports'][0].get('instance', r['reports'][0].get('analysis_broken', ''))[:90]) if r.get('reports') else ''))
         if r['status'] == 'missed' and r['expect'] == 'caught':
             ctx.control('selftest ' + r['patch'], False)
+        if r['status'] == 'caught' and r['expect'] == 'silent':
+            ctx.control('false alarm on behaviour-preserving change ' + r['patch'], False)
